@@ -38,6 +38,9 @@ type CliScn struct {
 	FaultAt    int    `json:"fault_at"`   // -1 = none; index of the received line that gets no answer
 	FaultKind  string `json:"fault_kind"` // close | silence
 	Transcript string `json:"transcript"`
+	// ErrOn: the first time this command of the login / set-up dialogue arrives it is answered with
+	// an error line (the device still does what the command says)
+	ErrOn string `json:"err_on"`
 }
 
 type SimLine struct {
@@ -62,6 +65,16 @@ type cliSim struct {
 	mode    string // login | exec | config
 	prompt  string
 	journal []string
+	errDone bool
+}
+
+// errAnswer: the error line, once, if `line` is the command the scenario wants rejected.
+func (s *cliSim) errAnswer(line string) string {
+	if s.scn.ErrOn != "" && line == s.scn.ErrOn && !s.errDone {
+		s.errDone = true
+		return "ERROR: % Invalid input detected at '^' marker.\n"
+	}
+	return ""
 }
 
 func (s *cliSim) out(text string) {
@@ -228,7 +241,12 @@ func (s *cliSim) cisco() {
 		if line == "exit" {
 			return
 		}
-		s.out(s.ciscoAnswer(line))
+		e := s.errAnswer(line)
+		a := s.ciscoAnswer(line)
+		if e != "" {
+			a = e
+		}
+		s.out(a)
 		s.out(name + "#")
 	}
 }
@@ -327,6 +345,8 @@ func (s *cliSim) linux() {
 			s.prompt = strings.TrimPrefix(line, "PS1=")
 		case line == "echo $?":
 			s.out(status + "\n")
+		case s.scn.ErrOn != "" && line == s.scn.ErrOn && !s.errDone:
+			s.out(s.errAnswer(line))
 		case line == "uname -r":
 			s.out("3.2.89-2.custom\n")
 		case line == "uname -m":
